@@ -30,7 +30,11 @@ import (
 
 type EngCase struct {
 	Mode          string `json:"mode"` // normal | error | cancel
-	Instances     int    `json:"instances"`
+	Instances     int    `json:"instances"` // started at once
+	// gradual startup: after the `once` part the startup schedule goes on with const{ops, duration}
+	// (0 = startup is `once` only), so instances are still being started while the pool runs
+	StartOps   float64 `json:"startup_then_const_ops"`
+	StartDurMs int     `json:"startup_then_const_duration_ms"`
 	PerShot       int    `json:"reports_per_shot"`
 	Tokens        int    `json:"tokens"`
 	Ammo          int    `json:"ammo"` // <0 unbounded
@@ -60,6 +64,13 @@ func genEngCase(t *rapid.T) EngCase {
 		if rapid.Bool().Draw(t, "boundedAmmo") {
 			c.Ammo = rapid.IntRange(0, c.Tokens+2).Draw(t, "ammo")
 		}
+		genGradualStartup(t, &c)
+		if c.StartOps > 0 && rapid.Bool().Draw(t, "lateReporter") {
+			// the ammo runs out while instances are still being started and other instances are in
+			// the middle of a (slow) shot: their samples are reported after the first "out of ammo"
+			c.Ammo = rapid.IntRange(0, min(c.Tokens+2, 24)).Draw(t, "ammoShort")
+			c.ShotUs = rapid.SliceOfN(rapid.SampledFrom([]int{0, 200, 1000, 2500}), 1, 3).Draw(t, "shotUsSlow")
+		}
 		// any queue size: the engine cancels the aggregator only after all instances finished
 		c.Queue = rapid.SampledFrom([]int{0, 1, 2, 16, 262144}).Draw(t, "queue")
 	case "error":
@@ -70,10 +81,24 @@ func genEngCase(t *rapid.T) EngCase {
 	case "cancel":
 		c.CancelAfter = rapid.IntRange(0, maxReports).Draw(t, "cancelAfter")
 		c.CancelDelayUs = rapid.SampledFrom([]int{0, 0, 30, 300}).Draw(t, "cancelDelay")
-		c.Queue = maxReports + c.Instances*c.PerShot + 8
+		c.Queue = maxReports + c.Instances*c.PerShot + 8 // maxReports bounds the reports of any number of instances
+		genGradualStartup(t, &c)
 	}
 	c.Repeat = 2
 	return c
+}
+
+// genGradualStartup: in about half of the cases the startup schedule is not over after the
+// `once` part (docs/eng/startup.md: any schedule type may be composed): a slow const that outlives
+// the run, or a fast one that adds instances while the others are shooting.
+func genGradualStartup(t *rapid.T, c *EngCase) {
+	switch rapid.IntRange(0, 3).Draw(t, "startup") {
+	case 0:
+		c.StartOps, c.StartDurMs = 1, 30000 // one more instance at once, the next ones 1 s apart: never over before the run is
+	case 1:
+		c.StartOps = rapid.SampledFrom([]float64{200, 2000}).Draw(t, "startOps")
+		c.StartDurMs = rapid.SampledFrom([]int{2, 5, 20}).Draw(t, "startDurMs")
+	}
 }
 
 var errInjected = errors.New("injected provider fault")
@@ -85,6 +110,7 @@ type eprov struct {
 	base           time.Time
 	ch             chan int
 	faultNs        atomic.Int64 // time since base just before the faulty return, 0 = not reached
+	outNs          atomic.Int64 // time since base (+1) at which an Acquire first answered "out of ammo", 0 = never
 	returned       atomic.Bool
 }
 
@@ -104,7 +130,13 @@ func (p *eprov) Run(ctx context.Context, _ core.ProviderDeps) error {
 	}
 	return nil
 }
-func (p *eprov) Acquire() (core.Ammo, bool) { i, ok := <-p.ch; return i, ok }
+func (p *eprov) Acquire() (core.Ammo, bool) {
+	i, ok := <-p.ch
+	if !ok {
+		p.outNs.CompareAndSwap(0, int64(time.Since(p.base))+1)
+	}
+	return i, ok
+}
 func (p *eprov) Release(core.Ammo)          {}
 
 type doneRec struct {
@@ -204,10 +236,15 @@ func engineOnce(c EngCase, o *vf.Obs, classify bool) error {
 	if c.Mode == "error" {
 		prov.faultAt = c.FaultAtItem
 	}
+	startup := schedule.NewOnce(int64(c.Instances))
+	if c.StartOps > 0 && c.StartDurMs > 0 {
+		startup = schedule.NewComposite(startup, schedule.NewConst(c.StartOps, time.Duration(c.StartDurMs)*time.Millisecond))
+	}
+	planned := startup.Left() // instances the startup schedule would start if nothing cut it short
 	econf := engine.Config{Pools: []engine.InstancePoolConfig{{
 		ID: "p", Provider: prov, Aggregator: netsample.WrapAggregator(ph), NewGun: w.newGun,
 		NewRPSSchedule:  func() (core.Schedule, error) { return schedule.NewOnce(int64(c.Tokens)), nil },
-		StartupSchedule: schedule.NewOnce(int64(c.Instances)),
+		StartupSchedule: startup,
 	}}}
 	eng := engine.New(pand.NopLog(), pand.Metrics(), econf)
 
@@ -258,6 +295,7 @@ func engineOnce(c EngCase, o *vf.Obs, classify bool) error {
 	w.mu.Lock()
 	started := append([]string(nil), w.started...)
 	done := append([]doneRec(nil), w.done...)
+	insts := w.guns - 1 // the pool creates one gun for the warm-up, then one per instance
 	w.mu.Unlock()
 	faultNs := prov.faultNs.Load()
 	end := time.Duration(-1) // -1: the pool finished by itself, every report counts
@@ -321,12 +359,29 @@ func engineOnce(c EngCase, o *vf.Obs, classify bool) error {
 		o.ClassIf(end >= 0 && len(lines) > len(must), "lines_beyond_must")
 		o.ClassIf(end >= 0 && len(lines) < len(done), "reports_lost_after_end")
 		o.ClassIf(c.Ammo >= 0 && c.Ammo < c.Tokens, "out_of_ammo_end")
+		o.ClassIf(c.StartOps > 0, "gradual_startup")
+		o.ClassIf(insts > c.Instances, "instances_beyond_once")
+		// the class of "the pool is not finished yet": samples whose Report returned after an instance
+		// had already been told "out of ammo", split by whether the startup schedule was cut short by it
+		late := 0
+		if out := prov.outNs.Load(); out > 0 {
+			for _, d := range done {
+				if d.at > time.Duration(out-1) {
+					late++
+				}
+			}
+		}
+		o.ClassIf(end < 0 && late > 0, "report_after_first_out_of_ammo")
+		o.ClassIf(end < 0 && late > 0 && insts < planned, "report_after_out_of_ammo_while_starting")
+		o.ClassIf(end < 0 && prov.outNs.Load() > 0 && insts < planned, "out_of_ammo_while_starting")
 		o.ClassIf(c.Queue <= 2, "queue_le_2")
 		o.ClassIf(c.Instances >= 2, "instances_ge_2")
 		o.ClassIf(c.PerShot >= 2, "k_ge_2")
 		if len(must) >= 2 && (c.Instances >= 2 || c.Queue < len(done)) {
 			o.NonTrivial()
 		}
+		o.Note("instances_started", insts)
+		o.Note("instances_planned", planned)
 		o.Note("reports_started", len(started))
 		o.Note("reports_completed", len(done))
 		o.Note("must", len(must))
